@@ -120,6 +120,13 @@ func skeleton(ws []witness, exotic bool) []byte {
 	for _, p := range []string{"zeta", "alpha", "mid", "\"on\"", "\"12\"", "\"null\""} {
 		fmt.Fprintf(&b, "        %s:\n          type: string\n", p)
 	}
+	// scalar defaults and examples that look like other types (strings all the same), and plain dates
+	for i, w := range ws {
+		if w.Tag != "str" && w.Tag != "unreadable" {
+			fmt.Fprintf(&b, "        look%d:\n          type: string\n          default: %s\n          example: %s\n", i, doubleQuoted(w.Text), doubleQuoted(w.Text))
+		}
+	}
+	b.WriteString("        day:\n          type: string\n          enum: [2019-12-31, 2021-06-30]\n          default: 2019-12-31\n          example: 2021-06-30\n")
 	b.WriteString("        num:\n          type: number\n")
 	if exotic {
 		b.WriteString("          maximum: 1e3\n          minimum: -0x10\n          multipleOf: .5\n          default: 1_0\n")
